@@ -46,7 +46,9 @@ pub fn c01_node_case(ctx: &Ctx, c: &C01Node) -> Vec<Viol> {
     }
     let src = lab.natural_source();
     let stranger = lab.stranger;
-    let scrub: Vec<u8> = std::iter::once(0u8).chain(std::iter::repeat(0xa5).take(700)).collect();
+    // stale bytes behind the datagram: they must differ from the bytes that were cut off (else the parser sees the genuine message)
+    let filler = if g.get(bytes.len()) == Some(&0xa5) { 0x5a } else { 0xa5 };
+    let scrub: Vec<u8> = std::iter::once(0u8).chain(std::iter::repeat(filler).take(700)).collect();
     lab.sim.deliver_to(T, stranger, scrub);
     let before = lab.observe();
     lab.sim.deliver_to(T, src, bytes.clone());
@@ -910,6 +912,7 @@ fn c11_stats_file(ctx: &Ctx) -> Vec<Viol> {
     cfg.listen = sim_addr(0).to_string();
     vpncloud::util::MockTimeSource::set_time(crate::sim::T0);
     let mut node: crate::sim::Node<Packet> = crate::sim::Node::new(&cfg, vpncloud::net::MockSocket::new(sim_addr(0)), vpncloud::device::MockDevice::new(), None, Some(file));
+    node.verif_initialize();
     let mut total = 0usize;
     for k in 0..5u8 {
         let p = ipv4_packet([10, 9, 0, 1], [10, 77, 0, k], &vec![k; 10 + k as usize]);
